@@ -126,6 +126,16 @@ CHECKS['C03'] = dict(
          "object fields (member assignment, bare-name field assignment, field initialiser) — see known_findings.txt.",
     tech="static analysis: symbolic folding of the allocation/renormalisation algebra, guard dominance for divisors, who-may-call and who-writes ownership rules, typestate over field-write sites")
 
+CHECKS['C05'] = dict(
+    text="Well-formedness and completeness of the emitted listing for every program: each simulator operation logs exactly one statement on "
+         "every normal path (logging on) after operand checks and the state update; the logged text, folded as a string template, equals "
+         "the OpenQASM 2.0 statement of the method's own mnemonic over its own parameters in order; getQasm folds to header + qreg/creg "
+         "sized by the qubit count + log in order; range tests precede logging; cx rejects identical operands; the CLI streams one "
+         "variable to file and stdout and reads the listing from the evaluator whose logging it switched on.",
+    note=TB + "Oracle: OpenQASM 2.0 statement grammar and docs/reference/qasm-mapping.md. Equality of the replayed state is not decided on its "
+         "own: it follows from these rules together with C01/C02/C04; six-decimal angle text is taken as specified.",
+    tech="static analysis: exactly-once path counting (K-COUNT) on the CFG, string-template folding of extracted expressions (K-SX), guard dominance, def-use of the CLI listing variable")
+
 NOT_YET = "check not yet built in this round (framework under construction; see DESIGN.md §4 for the planned static rules)"
 
 
